@@ -20,7 +20,8 @@ EXPLANATION = (
     "resolved through its MRO removes / marks the feature in every per-feature attribute that the "
     "class or an ancestor initialises -- the frozen table plus every attribute whose initial value is "
     "derived from a feature list; removals requested outside _remove_feature dispatch to the most "
-    "derived override); R-pool-args (a computed multiprocessing chunk size is clamped to >= 1); "
+    "derived override); R-pool-args (a computed multiprocessing chunk size is clamped to >= 1); R-select-nonempty "
+    "(numpy.select never sees an empty condition list); "
     "R-no-iter-mutation (no loop iterates a self list that its body "
     "mutates); R-boundaries-sorted-unique-inf (unique leaders); R-definite-assignment "
     "(predicate-sensitive, same-test correlation: no read of a possibly unbound local in the "
@@ -32,7 +33,7 @@ EXPLANATION = (
     "ChainedDiscretizer, which C18 covers)."
 )
 NOT_DECIDED = "absence of every other internal error on all inputs; that the fitted partition covers every training value"
-FLOORS = {"R-remove-complete": 12, "R-no-iter-mutation": 3, "R-boundaries-sorted-unique-inf": 4, "R-definite-assignment": 100, "R-nullable-dev": 6, "R-hooks-exhaustive": 2, "R-quantile-progress": 2, "R-append-absent": 9, "R-pool-args": 1}
+FLOORS = {"R-remove-complete": 12, "R-no-iter-mutation": 3, "R-boundaries-sorted-unique-inf": 4, "R-definite-assignment": 100, "R-nullable-dev": 6, "R-hooks-exhaustive": 2, "R-quantile-progress": 2, "R-append-absent": 9, "R-pool-args": 1, "R-select-nonempty": 2}
 
 PER_FEATURE = {
     "features", "qualitative_features", "quantitative_features", "values_orders", "input_dtypes", "labels_per_values",
@@ -396,6 +397,7 @@ def check(ctx):
     rule_remove_complete(ctx)
     rule_remove_dispatch(ctx)
     rule_pool_chunksize(ctx)
+    quant.check_select_nonempty(ctx, "R-select-nonempty")
     c10.rule_no_iter_mutation(ctx)
     quant.check_boundaries(ctx, "R-boundaries-sorted-unique-inf")
     rule_definite_assignment(ctx)
@@ -422,6 +424,8 @@ MUTANTS = [
        "        xtabs = {feature: None for feature in features}\n        for feature in features:\n            # computing crosstab with str_nan\n            xtab = crosstab(X[feature], y)\n\n            # reordering according to known_order\n            xtab = xtab.reindex(labels_orders[feature], fill_value=0)\n\n            # storing results\n            xtabs.update({feature: xtab})")], "R-nullable-dev", "_aggregator"),
     M("removal bypasses the subclass override", [(F_DISC, "                    UserWarning,\n                )\n                self._remove_feature(feature)\n\n        # checking for columns containing floats or integers even with filled nans", "                    UserWarning,\n                )\n                super()._remove_feature(feature)\n\n        # checking for columns containing floats or integers even with filled nans")], "R-remove-complete", "QualitativeDiscretizer._prepare_data"),
     M("chunk size computed by floor division", [(F_QUAN, "                    self.quantitative_features,\n                )\n        # storing into the values_orders", "                    self.quantitative_features,\n                    chunksize=len(self.quantitative_features) // self.n_jobs,\n                )\n        # storing into the values_orders")], "R-pool-args"),
+    M("D23-reverted: select on an empty condition list", [(F_QUAL, "                if len(values_to_group) > 0:\n                    x_copy[feature] = select(df_to_input, groups_value, default=x_copy[feature])\n", "                x_copy[feature] = select(df_to_input, groups_value, default=x_copy[feature])\n")], "R-select-nonempty", "ChainedDiscretizer.fit"),
+    M("transform selects without the emptiness guard", [(F_BASE, "    if len(values_to_group) > 0:\n        df_feature = select(values_to_group, group_labels, default=df_feature)", "    df_feature = select(values_to_group, group_labels, default=df_feature)")], "R-select-nonempty", "transform_quantitative_feature"),
     M("recursion keeps the frequent values", [(F_QUAN, "df_feature[(sub_indices == i) & (~in1d(df_feature, frequent_values))], q, len_df, []", "df_feature[(sub_indices == i)], q, len_df, []")], "R-quantile-progress"),
     M("carving loop iterates self.features while removing", [(F_BC, "        all_features = self.features[:]  # (features are being removed from self.features)\n        for n, feature in enumerate(all_features):", "        all_features = self.features  # (features are being removed from self.features)\n        for n, feature in enumerate(self.features):")], "R-no-iter-mutation"),
 ]
